@@ -47,6 +47,7 @@ SITES = [
 # public entry point that takes a coefficient dictionary and runs a whole alignment (0.5 s per case): drawn
 # separately, with its own small budget
 XCORR = "xcorr_fit"
+SEARCH = ("grid_search", "optuna_search")
 
 
 def target(value, label):
@@ -230,6 +231,44 @@ def xcorr_cases(draw):
     if draw(st.integers(0, 9)) == 0:
         case["unknown"] = [draw(st.sampled_from(_UNKNOWN_KEYS)), draw(st.integers(0, len(items)))]
     return case
+
+
+@st.composite
+def search_cases(draw):
+    """grid_search_hyperparameters / optimize_hyperparameters with alias keys: values are either numbers (fixed)
+    or {"low", "high", "n"} ranges (n grid points, or an Optuna range when n is None)."""
+    mode = draw(st.sampled_from(SEARCH))
+    inv = {v[0]: k for k, v in R.ALIASES.items()}
+    forced = draw(st.sampled_from(["C10", "C10", "C10", "C12", "phi12", "C21", "C30"]))
+    syms = draw(st.lists(st.sampled_from(["C10", "C12", "phi12", "C21", "phi21", "C23", "C30", "C32"]), min_size=0, max_size=2, unique=True))
+    if forced not in syms:
+        syms.append(forced)
+    items = []
+    combos = 1
+    for s_ in syms:
+        key = inv[s_] if (s_ in inv and (s_ == forced or draw(st.booleans()))) else s_
+        if s_ == forced or draw(st.booleans()):
+            if s_.startswith("phi"):
+                lo = draw(st.floats(-1.5, 1.0))
+                hi = lo + draw(st.floats(0.05, 1.0))
+            else:
+                lo = draw(st.floats(-500.0, 400.0) | st.sampled_from([100.0, -300.0, 0.0]))
+                hi = lo + draw(st.floats(1.0, 300.0))
+            n = None
+            if mode == "grid_search":
+                n = draw(st.integers(1, 3 if combos == 1 else 2))
+                combos *= n
+            items.append([key, {"low": lo, "high": hi, "n": n}])
+        else:
+            items.append([key, draw(_ANGLES) if s_.startswith("phi") else draw(st.floats(-500.0, 500.0))])
+    return {
+        "kind": "alias",
+        "site": mode,
+        "items": items,
+        "rot": draw(st.floats(-1.5, 1.5)),
+        "data_seed": draw(st.integers(0, 10**6)),
+        "sampler_seed": draw(st.integers(0, 10**6)),
+    }
 
 
 @st.composite
@@ -628,20 +667,7 @@ def _run_site(case, items, torch, cp):
             raise core.Violation("HyperparameterState dropped 'rotation_angle' from optimized_keys: %r" % sorted(keys), case)
         return [("HyperparameterState.optimized_keys", {k: None for k in keys - {"rotation_angle"}}, 0)]
     if site == XCORR:
-        from quantem.core.datastructures import Dataset2d, Dataset3d
-        from quantem.diffractive_imaging.direct_ptychography import DirectPtychography
-
-        n = 6
-        k = np.fft.fftfreq(n, 1.0 / n)
-        mask = (k[:, None] ** 2 + k[None, :] ** 2) <= 1.0
-        rng = np.random.default_rng(int(case.get("data_seed", 0)))
-        vbf = (1.0 + 0.1 * rng.standard_normal((int(mask.sum()), 8, 8))).astype(np.float32)
-        vd = Dataset3d.from_array(vbf, name="vbf", units=("index", "A", "A"), sampling=(1, 0.5, 0.5))
-        md = Dataset2d.from_array(mask, name="mask", units=("A^-1", "A^-1"), sampling=(0.02, 0.02))
-        dp = DirectPtychography.from_virtual_bfs(
-            vd, md, energy=80e3, rotation_angle=0.0, aberration_coefs={}, semiangle_cutoff=20.0,
-            crop_bf_mask=False, verbose=False,
-        )  # fmt: skip
+        dp = _noise_direct(case)
         dp.fit_hyperparameters_cross_correlation(
             aberration_coefs=d, rotation_angle=case.get("rot"), bin_factors=(1,),
             alignment_method=case.get("method", "reference"), regularize_shifts=bool(case.get("regularize", True)),
@@ -650,14 +676,97 @@ def _run_site(case, items, torch, cp):
         res = fl(dp.hyperparameter_state.optimized_aberrations)
         res["rotation_angle"] = float(dp.hyperparameter_state.optimized_rotation_angle)
         return [("fit_hyperparameters_cross_correlation", res, 32)]
+    if site in SEARCH:
+        from quantem.diffractive_imaging.direct_ptychography import OptimizationParameter
+
+        dp = _noise_direct(case)
+        coefs = {}
+        for k, v in items:
+            if isinstance(v, dict):
+                coefs[k] = OptimizationParameter(low=v["low"], high=v["high"], n_points=v.get("n"))
+            else:
+                coefs[k] = v
+        if site == "grid_search":
+            dp.grid_search_hyperparameters(aberration_coefs=coefs, rotation_angle=case.get("rot"), verbose=False)
+        else:
+            import optuna
+
+            optuna.logging.set_verbosity(optuna.logging.ERROR)
+            dp.optimize_hyperparameters(
+                aberration_coefs=coefs, rotation_angle=case.get("rot"), n_trials=2,
+                sampler=optuna.samplers.TPESampler(seed=int(case.get("sampler_seed", 0))), verbose=False,
+            )  # fmt: skip
+        return [(site, dict(dp.aberration_coefs), 64)]
     raise core.HarnessError("unknown alias site %r" % site)
+
+
+def _noise_direct(case):
+    from quantem.core.datastructures import Dataset2d, Dataset3d
+    from quantem.diffractive_imaging.direct_ptychography import DirectPtychography
+
+    n = 6
+    k = np.fft.fftfreq(n, 1.0 / n)
+    mask = (k[:, None] ** 2 + k[None, :] ** 2) <= 1.0
+    rng = np.random.default_rng(int(case.get("data_seed", 0)))
+    vbf = (1.0 + 0.1 * rng.standard_normal((int(mask.sum()), 8, 8))).astype(np.float32)
+    vd = Dataset3d.from_array(vbf, name="vbf", units=("index", "A", "A"), sampling=(1, 0.5, 0.5))
+    md = Dataset2d.from_array(mask, name="mask", units=("A^-1", "A^-1"), sampling=(0.02, 0.02))
+    return DirectPtychography.from_virtual_bfs(
+        vd, md, energy=80e3, rotation_angle=0.0, aberration_coefs={}, semiangle_cutoff=20.0,
+        crop_bf_mask=False, verbose=False,
+    )  # fmt: skip
+
+
+def _check_search(ctx, case, items, torch, cp):
+    """After a hyper-parameter search over alias keys, the coefficient dictionary in force (what every later
+    reconstruction evaluates) must mean what the alias rule says: (a) evaluated by quantem's aberration_surface
+    it is the surface of its own alias-resolved form, (b) that form is one of the searched candidates."""
+    site = case["site"]
+    with ctx.sut(case, site):
+        state = _run_site(case, items, torch, cp)[0][1]
+    try:
+        meaning = R.canonical([(k, float(v)) for k, v in state.items()])
+    except KeyError as e:
+        raise core.Violation("%s left the unknown key %s in aberration_coefs %r" % (site, e, state), case)
+    lam = 0.0418
+    ax, ay = R.points(7, 16)
+    tax = torch.tensor(ax, dtype=torch.float64)
+    tay = torch.tensor(ay, dtype=torch.float64)
+    with ctx.sut(case, "aberration_surface(state after %s)" % site):
+        chi = _np(cp.aberration_surface(torch.sqrt(tax * tax + tay * tay), torch.atan2(tay, tax), lam, {k: float(v) for k, v in state.items()}))
+    ref = R.surface_polar(ax, ay, lam, meaning)
+    e, i = _rel(chi, ref, R.scale_polar(np.hypot(ax, ay), lam, meaning))
+    if e > TOL64:
+        raise core.Violation(
+            "after %s(aberration_coefs=%r) the coefficients in force are %r: evaluated by aberration_surface they are not the "
+            "surface of %r (alias keys are ignored by the surface; difference %.3g of the term scale)"
+            % (site, dict(items), state, meaning, e),
+            case,
+        )
+    # (b) candidates
+    for k, v in items:
+        (sym, sign), = [R.ALIASES.get(k, (k, 1.0))]
+        got = meaning.get(sym)
+        if got is None:
+            raise core.Violation("after %s the searched/fixed coefficient %r (%s) is missing from %r" % (site, k, sym, state), case)
+        if isinstance(v, dict):
+            lo, hi = sorted((sign * v["low"], sign * v["high"]))
+            if v.get("n"):
+                cands = [sign * float(x) for x in np.linspace(v["low"], v["high"], int(v["n"]))]
+                ok = any(math.isclose(got, c, rel_tol=1e-12, abs_tol=1e-12) for c in cands)
+            else:
+                ok = lo - 1e-9 <= got <= hi + 1e-9
+            if not ok:
+                raise core.Violation("after %s, %s=%r is not among the searched values of %r=%r" % (site, sym, got, k, v), case)
+        elif not math.isclose(got, sign * float(v), rel_tol=1e-12, abs_tol=0.0):
+            raise core.Violation("after %s, fixed %s=%r became %s=%r" % (site, k, v, sym, got), case)
 
 
 def _check_alias(ctx, case):
     torch, cp, du = _q()
     site = case["site"]
     items = [(k, v) for k, v in case["items"]]
-    expected = R.canonical(items)
+    expected = R.canonical([(k, (v["low"] if isinstance(v, dict) else v)) for k, v in items])
     unknown = case.get("unknown")
     has_defocus = any(k == "defocus" for k, _ in items)
     n_alias = sum(1 for k, _ in items if k in R.ALIASES)
@@ -691,6 +800,8 @@ def _check_alias(ctx, case):
             case,
         )
 
+    if site in SEARCH:
+        return _check_search(ctx, case, items, torch, cp)
     if site == XCORR:
         # the alias dictionary and its canonical form are the same coefficients: the whole fit must agree.  Both
         # runs start from identical fresh objects and are deterministic (single thread), so agreement is
@@ -869,19 +980,27 @@ def _singletons(ctx):
                 if alias == "defocus":
                     continue
                 case["items"].append(["C10", 250.0])
-            if site.startswith("probe_") and site != "probe_check_params":
+            if site in ("probe_pixelated", "probe_parametric", "probe_reassign"):
                 for nst in (False, True):
                     check(ctx, dict(case, nested=[nst], **({"first_defocus": None} if site == "probe_reassign" else {})))
             else:
                 check(ctx, case)
+    for site in SEARCH:
+        for alias in R.ALIASES:
+            rng_ = {"low": 0.2, "high": 0.9, "n": 2} if alias.endswith("angle") else {"low": 100.0, "high": 300.0, "n": 2}
+            if site == "optuna_search":
+                rng_["n"] = None
+            check(ctx, {"kind": "alias", "site": site, "items": [[alias, rng_]], "rot": 0.1, "data_seed": 0, "sampler_seed": 0})
     ctx.extra["singletons_enumerated"] = 50
 
 
 def search(ctx):
     if ctx.widx == 0:
         _singletons(ctx)
-    core.run_given(ctx, "surface", surface_cases(), lambda c: check(ctx, c), ctx.n(700, 3000))
-    core.run_given(ctx, "cart", cart_cases(), lambda c: check(ctx, c), ctx.n(300, 1500))
-    core.run_given(ctx, "alias", alias_cases(), lambda c: check(ctx, c), ctx.n(900, 4000))
-    core.run_given(ctx, "xcorr", xcorr_cases(), lambda c: check(ctx, c), ctx.n(12, 60))
-    core.run_given(ctx, "fit", fit_cases(), lambda c: check(ctx, c), ctx.n(500, 3000))
+    core.run_given(ctx, "surface", surface_cases(), lambda c: check(ctx, c), ctx.n(700, 7000))
+    core.run_given(ctx, "cart", cart_cases(), lambda c: check(ctx, c), ctx.n(300, 3000))
+    core.run_given(ctx, "alias", alias_cases(), lambda c: check(ctx, c), ctx.n(900, 9000))
+    core.run_given(ctx, "fit", fit_cases(), lambda c: check(ctx, c), ctx.n(500, 6000))
+    # whole alignments / searches: ~0.5 s per case
+    core.run_given(ctx, "xcorr", xcorr_cases(), lambda c: check(ctx, c), ctx.n(12, 120))
+    core.run_given(ctx, "search", search_cases(), lambda c: check(ctx, c), ctx.n(14, 140))
